@@ -331,10 +331,26 @@ class Alignment:
                 ch[p_].sort(key=num)
             return ch
         cch, rch = children(cur), children(ref)
-        work = [k for k in cur if cur[k]['kind'] != 'Closure' and k in self.fn]
-        while work:
-            pk = work.pop()
-            cs, rs = cch.get(pk, []), rch.get(self.fn[pk], [])
+        work = [(k, None) for k in cur if cur[k]['kind'] != 'Closure' and k in self.fn]
+        helpers_done = False
+        while work or not helpers_done:
+            if not work:
+                # closures of a helper that was split off a known function (and is spliced back into it for the rules): they take the
+                # place of that function's own closures. Only when exactly one of the helper's callers has closures left over.
+                helpers_done = True
+                matched_r = set(self.fn.values())
+                for hk, hf in cur.items():
+                    if hf['kind'] == 'Closure' or hk in self.fn or not cch.get(hk):
+                        continue
+                    hosts = [fk for fk, ff in cur.items() if ff['kind'] != 'Closure' and fk in self.fn and hk in ff.get('refs', ())]
+                    cands = [fk for fk in hosts if any(rk not in matched_r for rk in rch.get(self.fn[fk], []))]
+                    if len(cands) == 1:
+                        work.append((hk, self.fn[cands[0]]))
+                if not work:
+                    break
+            pk, as_ref = work.pop()
+            rparent = as_ref if as_ref is not None else self.fn[pk]
+            cs, rs = [c for c in cch.get(pk, []) if c not in self.fn], [r for r in rch.get(rparent, []) if r not in set(self.fn.values())]
             if len(cs) == len(rs):
                 pairs = list(zip(cs, rs))
             else:
@@ -356,7 +372,7 @@ class Alignment:
                         j2 += 1
             for ck, rk in pairs:
                 self.fn[ck] = rk
-                work.append(ck)
+                work.append((ck, None))
         self.unmatched_fns = {k for k, f in cur.items() if f['kind'] != 'Closure' and k not in self.fn}
         self.unmatched_closures = {k for k, f in cur.items() if f['kind'] == 'Closure' and k not in self.fn}
 
